@@ -1061,6 +1061,11 @@ def run(ctx, rep):
                           "grapheme count of format literals modelled as char count (harness sends only such literals)",
                           "wrap row counts and the line alignment are parameters taken from the implementation (wrap_line: C07, edit inference: C06)"]
     rep.assumptions += ["two-way (unified) diffs; hyperlinks off; stdout is not a terminal (line-fill-method spaces, no odd-width pad column)"]
+    rep.exhaustive = dict(
+        sbs_block="every valid line alignment (Delannoy paths) of every subhunk shape m x p, 0<=m,p<=4, m+p>0; rows per line in {1,2,3}: "
+                  + ("every vector for m+p<=2, sampled above" if ctx.quick() else "every vector for m+p<=6, 60 sampled vectors per alignment above"),
+        pad="n in {0..12, 99, 100, 101, 999, 1000, 9999, 10000, 99999, 123456, 10^6, 10^6+1} x width 0..8 x 3 alignments",
+        numbers="7 states x increment x 5 counter pairs incl. usize::MAX")
     hook = ctx.hook()
     mdl = ctx.model("drv_linenum") if ctx.drivers_ok else None
     run_primitives(ctx, rep, hook, mdl)
